@@ -871,6 +871,11 @@ class PolyhedralTermList(TermList):  # noqa: WPS338
         Raises:
             ValueError: Constraints are likely unfeasible.
         """
+        if self.lacks_constraints():
+            # every behaviour is allowed: any objective with a nonzero coefficient is unbounded
+            if any(coefficient != 0 for coefficient in objective.values()):
+                return None
+            return 0
         obj = PolyhedralTermList([PolyhedralTerm(variables=objective, constant=0)])
         _, self_mat, self_cons, obj_mat, _ = PolyhedralTermList.termlist_to_polytope(self, obj)  # noqa: WPS236
         polarity = 1
